@@ -106,6 +106,10 @@ class Codec:
         n = self.name
         if n in ("quote", "quotent"):
             return T(j)
+        if n == "cookie":
+            return ds.MultiDict([(T(k), T(v)) for k, v in j])
+        if n == "accept":
+            return ds.Accept([(T(x), q / 1000) for x, q in j])
         if n == "list":
             return [T(x) for x in j]
         if n == "set":
@@ -163,6 +167,8 @@ class Codec:
             return http.quote_header_value(o, allow_token=False)
         if n in ("list", "dict"):
             return http.dump_header(o)
+        if n == "cookie":
+            return "; ".join(http.dump_cookie(k, v, path=None) for k, v in o.items(multi=True))
         if n in ("options", "options2231"):
             return http.dump_options_header(o[0], o[1])
         if n == "age":
@@ -178,6 +184,10 @@ class Codec:
         n = self.name
         if n in ("quote", "quotent"):
             return http.unquote_header_value(s)
+        if n == "cookie":
+            return http.parse_cookie(s)
+        if n == "accept":
+            return http.parse_accept_header(s)
         if n == "list":
             return http.parse_list_header(s)
         if n == "set":
@@ -220,6 +230,10 @@ class Codec:
         n = self.name
         if n in ("quote", "quotent"):
             return eT(o)
+        if n == "cookie":
+            return [[eT(k), eT(v)] for k, v in o.items(multi=True)]
+        if n == "accept":
+            return [[eT(x), int(round(q * 1000))] for x, q in o]
         if n in ("list", "set"):
             return [eT(x) for x in o]
         if n in ("dict", "csp"):
@@ -709,3 +723,170 @@ def model_cases2(printed):
         elif c == "set":
             cases.append({"op": "rt", "codec": "set", "j": x, "variant": ""})
     return cases
+
+
+# ------------------------------------------------------------------------------------------------ histories with aliasing
+HIST_CODECS = ("list", "set", "dict", "options", "etags", "range", "crange", "csp", "ifrange", "cc", "authz", "wwwauth",
+               "cachecontrol", "basic", "authparam", "cookie", "accept")
+MUT_KINDS = ("add", "remove", "change", "clear")
+
+
+def _mut_mapping(d, kind, val="x y"):
+    """mutate a dict-like container in place"""
+    if kind == "add":
+        d["zz"] = val
+    elif kind == "remove":
+        if len(d):
+            d.pop(next(iter(d)))
+        else:
+            d["zz"] = val
+    elif kind == "change":
+        if len(d):
+            d[next(iter(d))] = val
+        else:
+            d["zz"] = val
+    else:
+        d.clear()
+        d["cleared"] = val
+
+
+def mutate(codec, o, kind):
+    """Mutate, through its public mutable surface, a container a parser returned (or a value before it is dumped again).
+    Returns False when the object offers nothing mutable (immutable types raise TypeError)."""
+    from werkzeug import datastructures as ds
+
+    try:
+        if o is None:
+            return False
+        if codec == "list":
+            {"add": lambda: o.append("zz"), "remove": lambda: o.pop(0) if o else o.append("zz"),
+             "change": lambda: o.__setitem__(0, "x y") if o else o.append("x y"), "clear": lambda: (o.clear(), o.append("cleared"))}[kind]()
+        elif codec == "set":
+            {"add": lambda: o.add("zz"), "remove": lambda: o.discard(next(iter(o))) if len(o) else o.add("zz"),
+             "change": lambda: o.update(["x y", "zz"]), "clear": lambda: (o.clear(), o.add("cleared"))}[kind]()
+        elif codec in ("dict", "csp", "cc", "cachecontrol"):
+            _mut_mapping(o, kind)
+        elif codec == "cookie":
+            _mut_mapping(o, kind, "q1")
+        elif codec in ("options", "options2231"):
+            _mut_mapping(o[1], kind)
+        elif codec == "etags":
+            o.star_tag = not o.star_tag
+        elif codec == "range":
+            if kind == "clear":
+                o.units, o.ranges = "items", [(3, 8)]
+            elif kind == "remove" and len(o.ranges) > 1:
+                o.ranges.pop()
+            elif isinstance(o.ranges, list):
+                o.ranges[:] = [(1, 2), (4, None)]
+            else:
+                o.ranges = [(1, 2), (4, None)]
+        elif codec == "crange":
+            if kind == "clear":
+                o.set(None, None, 7, "items")
+            else:
+                o.set(0, 1, 2)
+        elif codec == "ifrange":
+            o.etag, o.date = ("zz", None) if kind != "clear" else (None, None)
+        elif codec in ("authz", "wwwauth", "basic", "authparam"):
+            if o.type == "basic" and isinstance(o, ds.Authorization):
+                o.parameters["password"] = "p:q" if kind != "clear" else ""
+            elif o.token is not None:
+                o.token = "tok=" if kind != "clear" else "t"
+            else:
+                _mut_mapping(o.parameters, kind)
+        elif codec == "accept":
+            o.append(("zz", 0.1))
+        else:
+            return False
+        return True
+    except TypeError:
+        return False
+
+
+def run_history(case):
+    """A history on ONE text: parse twice, mutate the first result and parse again, parse other texts (and mutate their
+    results) and parse again, dump the value twice, mutate the value and dump again.  One "hist" line per judged parse."""
+    name, variant = case["codec"], case.get("variant", "")
+    c = Codec(name, variant)
+    lines = []
+
+    def line(hk, v, text, parsed, err=""):
+        lines.append({"op": "hist", "codec": name, "hk": hk, "v": v, "dumped": cps(text), "parsed": parsed, "redumped": [], "reparsed": [],
+                      "err": err, "err2": ""})
+
+    def step(hk, v, text, like, before=None):
+        try:
+            if before is not None:
+                before()
+            line(hk, v, text, c.proj(c.parse(text, like)))
+        except Exception as e:  # noqa: BLE001 - recorded, judged by TLC
+            line(hk, v, text, [], type(e).__name__)
+
+    obj = c.mk(case["j"], variant)
+    v = c.proj(obj)
+    if name == "cachecontrol":
+        v["assigns"] = []
+    s = c.dump(obj)
+    kind = case.get("kind", "change")
+    p0 = c.parse(s, obj)  # never mutated by the history: it must not change when other results are mutated / other texts parsed
+    p1 = c.parse(s, obj)
+    step("parse-twice", v, s, obj)
+    def stable(hk):
+        try:
+            line(hk, v, s, c.proj(p0))
+        except Exception as e:  # noqa: BLE001
+            line(hk, v, s, [], type(e).__name__)
+
+    mutate(name, p1, kind)
+    stable("first-result-after-mutation")
+    step("parse-mutate-parse", v, s, obj)
+    p1b = c.parse(s, obj)
+    step("parse-clear-parse", v, s, obj, lambda: mutate(name, p1b, "clear"))
+
+    def others():
+        for k, oj in enumerate(case.get("others", [])):
+            oc = Codec(name, variant)
+            oo = oc.mk(oj, variant)
+            mutate(name, oc.parse(oc.dump(oo), oo), MUT_KINDS[k % 4])
+
+    others()
+    stable("first-result-after-others")
+    step("parse-after-others", v, s, obj)
+    s2 = c.dump(obj)
+    step("dump-twice", v, s2, obj)
+    if name not in ("etags", "accept") and mutate(name, obj, "change" if name not in ("range", "crange", "ifrange") else kind):
+        v2 = c.proj(obj)
+        if name == "cachecontrol":
+            v2["assigns"] = []
+        try:
+            s3 = c.dump(obj)
+            step("dump-mutate-dump", v2, s3, obj)
+        except Exception as e:  # noqa: BLE001
+            line("dump-mutate-dump", v2, "", [], type(e).__name__)
+    return lines
+
+
+def run_histories(cases):
+    return [run_history(c) for c in cases]
+
+
+def history_case(rng: random.Random, codec: str):
+    """a seeded history: an in-domain value of `codec`, two other values parsed in between, a mutation kind"""
+    def val():
+        if codec == "cookie":
+            n = rng.choice([1, 2, 3])
+            return {"j": [[cps(k), cps("".join(rng.choice("abcXYZ019") for _ in range(rng.randint(1, 5))))] for k in _keys(rng, n)], "variant": ""}
+        if codec == "accept":
+            qs = sorted(rng.sample([1000, 900, 800, 500, 300, 100, 1], rng.choice([1, 2, 3])), reverse=True)
+            return {"j": [[cps(rng.choice(["text/html", "a/b", "*/*", "gzip", "en", rtoken(rng, lower=True)])), q] for q in qs], "variant": ""}
+        if codec in CODECS2:
+            return random_case2(rng, codec)
+        return random_case(rng, codec)
+
+    a, b, d = val(), val(), val()
+    if codec in ("cachecontrol", "authparam") and (b["j"]["cls"] != a["j"]["cls"] or d["j"]["cls"] != a["j"]["cls"]):
+        b, d = a, a  # one class per history
+    if codec == "cc":
+        b["j"] = d["j"] = a["j"]
+    return {"op": "hist", "codec": codec, "j": a["j"], "variant": a.get("variant", ""), "others": [b["j"], d["j"]], "kind": rng.choice(MUT_KINDS)}
